@@ -160,6 +160,7 @@ struct Spec {
     int type = 0, rows = 0, cols = 0, F = 0;
     bool history = false; int hr = 0, hc = 0, hF = 0, hperf = 0;      // earlier, larger life of the object
     int zmode = 0;                                                   // 0 default 50 ohm, 1 ordinary vector, 2 per-frequency
+    int extraF = 0;                                                  // frequencies beyond F the object had while z0 was set, trimmed by a final resize
     std::vector<double> f;
     std::vector<dcx> z0;                                             // zmode 1: [ports]
     std::vector<std::vector<dcx>> fz0;                               // zmode 2: [F][ports]
@@ -167,11 +168,11 @@ struct Spec {
     int ports() const { return std::max(rows, cols); }
     // impedances in force at frequency i
     std::vector<dcx> z_at(int i) const {
-        if (zmode == 2 && F > 0) return fz0[i];
+        if (perf()) return fz0[i];
         if (zmode == 1) return z0;
         return std::vector<dcx>(ports(), mkc(VNADATA_DEFAULT_Z0, 0));
     }
-    bool perf() const { return zmode == 2 && F > 0; }
+    bool perf() const { return zmode == 2 && F + extraF > 0; }
 };
 
 struct Obj {
@@ -232,11 +233,12 @@ struct H {
         if (!g.det && g.chance(1, 5)) {
             s.history = true; s.hr = (int)g.range(0, 5); s.hc = (int)g.range(0, 5); s.hF = (int)g.range(0, 5); s.hperf = (int)g.draw(2);
         }
+        if (!g.det && zmode == 2 && g.chance(1, 6)) s.extraF = (int)g.range(1, 2);
         double f = 0;
-        for (int i = 0; i < s.F; i++) { f += (double)g.range(1, 1000) * 1e6; s.f.push_back(f); }
+        for (int i = 0; i < s.F + s.extraF; i++) { f += (double)g.range(1, 1000) * 1e6; s.f.push_back(f); }
         int np = s.ports();
         if (zmode == 1) for (int p = 0; p < np; p++) s.z0.push_back(gen_z0());
-        if (zmode == 2) for (int i = 0; i < s.F; i++) { s.fz0.emplace_back(); for (int p = 0; p < np; p++) s.fz0.back().push_back(gen_z0()); }
+        if (zmode == 2) for (int i = 0; i < s.F + s.extraF; i++) { s.fz0.emplace_back(); for (int p = 0; p < np; p++) s.fz0.back().push_back(gen_z0()); }
         for (int i = 0; i < s.F; i++) {
             g.mark();
             std::vector<dcx> m;
@@ -262,24 +264,26 @@ struct H {
             std::vector<dcx> zj(std::max(s.hr, s.hc) + 1, mkc(33, 44));
             if (s.hperf) { for (int i = 0; i < s.hF; i++) must(vnadata_set_fz0_vector(o.v, i, zj.data()) == 0, "vnadata_set_fz0_vector(history)", o); }
             else must(vnadata_set_z0_vector(o.v, zj.data()) == 0, "vnadata_set_z0_vector(history)", o);
-            must(vnadata_resize(o.v, (vnadata_parameter_type_t)s.type, s.rows, s.cols, s.F) == 0, "vnadata_resize", o);
+            must(vnadata_resize(o.v, (vnadata_parameter_type_t)s.type, s.rows, s.cols, s.F + s.extraF) == 0, "vnadata_resize", o);
             // back to a defined impedance state: all 50 ohm, ordinary mode
             must(vnadata_set_all_z0(o.v, mkc(VNADATA_DEFAULT_Z0, 0)) == 0, "vnadata_set_all_z0", o);
         } else {
-            must(vnadata_init(o.v, (vnadata_parameter_type_t)s.type, s.rows, s.cols, s.F) == 0, "vnadata_init", o);
+            must(vnadata_init(o.v, (vnadata_parameter_type_t)s.type, s.rows, s.cols, s.F + s.extraF) == 0, "vnadata_init", o);
         }
         std::vector<double> fv = s.f; fv.push_back(0);
         must(vnadata_set_frequency_vector(o.v, fv.data()) == 0, "vnadata_set_frequency_vector", o);
         if (s.zmode == 1) { std::vector<dcx> z = s.z0; z.push_back(mkc(0, 0)); must(vnadata_set_z0_vector(o.v, z.data()) == 0, "vnadata_set_z0_vector", o); }
-        if (s.zmode == 2) for (int i = 0; i < s.F; i++) { std::vector<dcx> z = s.fz0[i]; z.push_back(mkc(0, 0)); must(vnadata_set_fz0_vector(o.v, i, z.data()) == 0, "vnadata_set_fz0_vector", o); }
+        if (s.zmode == 2) for (int i = 0; i < s.F + s.extraF; i++) { std::vector<dcx> z = s.fz0[i]; z.push_back(mkc(0, 0)); must(vnadata_set_fz0_vector(o.v, i, z.data()) == 0, "vnadata_set_fz0_vector", o); }
+        // per-frequency impedances were established while the object had more frequencies
+        if (s.extraF) must(vnadata_resize(o.v, (vnadata_parameter_type_t)s.type, s.rows, s.cols, s.F) == 0, "vnadata_resize(trim)", o);
         for (int i = 0; i < s.F; i++) { std::vector<dcx> m = s.data[i]; m.push_back(mkc(0, 0)); must(vnadata_set_matrix(o.v, i, m.data()) == 0, "vnadata_set_matrix", o); }
         o.log.clear();
     }
     // the abstract object a spec denotes
     ArrayModel model_of(const Spec &s) {
         ArrayModel m; m.init(s.type, s.rows, s.cols, s.F);
-        m.freq = s.f;
-        if (s.perf()) { m.perf = true; m.z0.clear(); m.fz0 = s.fz0; }
+        m.freq.assign(s.f.begin(), s.f.begin() + s.F);
+        if (s.perf()) { m.perf = true; m.z0.clear(); m.fz0.assign(s.fz0.begin(), s.fz0.begin() + s.F); }
         else if (s.zmode == 1) m.z0 = s.z0;
         m.data = s.data;
         return m;
@@ -287,6 +291,7 @@ struct H {
     void note_spec(const char *who, const Spec &s) {
         c.note("%s: %s %dx%d F=%d z0mode=%s%s", who, type_name(s.type), s.rows, s.cols, s.F, s.zmode == 0 ? "default" : s.zmode == 1 ? "ordinary" : "per-frequency",
                s.history ? " (after an earlier life with other dimensions)" : "");
+        if (s.extraF) c.note("  (per-frequency z0 set while the object had %d more frequencies, then resized to F=%d)", s.extraF, s.F);
         for (int i = 0; i < s.F; i++) {
             std::string t; char b[96];
             for (auto x : s.data[i]) { snprintf(b, sizeof b, " %.17g%+.17gi", re_(x), im_(x)); t += b; }
